@@ -36,7 +36,7 @@ func isTagOpenByte(d int64) bool {
 }
 
 func ruleFRTagSkip(c *Ctx) {
-	c.Rule("FR-TAGSKIP", "In filterRaw, every advance of the scan index that is not a constant step (the jump over a tag) is (open) taken only when the byte after `<` is one an HTML tokenizer accepts as opening markup — an ASCII letter, `/`, `!` or `?` (exact set by BSET path-conditioning on that byte); for any other byte the tokenizer emits `<` as text and goes on scanning, so a tag before the next `>` would be live but never shown to the predicate; and (end) lands on the first `>` after the `<` or at the end of the input: the value is built only from len(input) and the result of bytes.IndexByte(input[from:], '>') with from at the cursor — a later end (quote-aware scanning, for instance) can hide a tag an HTML tokenizer sees.")
+	c.Rule("FR-TAGSKIP", "In filterRaw, every advance of the scan index that is not a constant step (the jump over a tag) is (open) taken only when the byte after `<` is one an HTML tokenizer accepts as opening markup — an ASCII letter, `/`, `!` or `?` (exact set by BSET path-conditioning on that byte); for any other byte the tokenizer emits `<` as text and goes on scanning, so a tag before the next `>` would be live but never shown to the predicate; (esc) is not taken on a path that has written `&lt;` for this `<` — the escaped tag's text is data for a tokenizer, which finds tags in it — and (end) lands on the first `>` after the `<` or at the end of the input: the value is built only from len(input) and the result of bytes.IndexByte(input[from:], '>') with from at the cursor — a later end (quote-aware scanning, for instance) can hide a tag an HTML tokenizer sees.")
 	p := c.P
 	theProgram = p
 	fn := p.Method("renderState", "filterRaw")
@@ -144,6 +144,34 @@ func ruleFRTagSkip(c *Ctx) {
 		sort.Slice(bad, func(a, b int) bool { return bad[a] < bad[b] })
 		c.Check(len(bad) == 0 && len(reach[j.src]) > 0, "FR-TAGSKIP", key+":open", pos,
 			"the scanner jumps to the next `>` although the byte after `<` does not open markup for an HTML tokenizer: "+describeSet(bad, true)+" — e.g. `<3 <script>` keeps a live <script> that the predicate never sees")
+		// (esc) the jump is not taken on a path that escaped this '<'
+		escaped := false
+		for b := range loop.body {
+			for ii, in := range b.Instrs {
+				call, isApp := isBuiltinCall(asValue(in), "append")
+				if !isApp || len(call.Call.Args) < 2 {
+					continue
+				}
+				if s, ok := constString(call.Call.Args[1]); !ok || s != "&lt;" {
+					continue
+				}
+				// does control reach the jump's source block from here within the same iteration?
+				if b == j.src {
+					escaped = true
+					continue
+				}
+				_ = ii
+				stop := map[*ssa.BasicBlock]bool{loop.header: true}
+				for _, sb := range b.Succs {
+					if sb == j.src || reachableBlocks(sb, stop)[j.src] {
+						if sb != loop.header {
+							escaped = true
+						}
+					}
+				}
+			}
+		}
+		c.Check(!escaped, "FR-TAGSKIP", key+":esc", pos, "the scanner jumps to the tag's `>` also after it has written `&lt;` for this `<`: an HTML tokenizer reads the text of the escaped tag as data and finds tags in it (`<script <xmp>` becomes `&lt;script <xmp>` with a live <xmp> the predicate never sees); after escaping, scanning has to go on right after the `<`")
 		// (end)
 		ok, why := tagEndShape(j.v, input, idx)
 		if ok {
